@@ -3,6 +3,9 @@ Props/C01.lean — property C01: curve evaluation equals the B-spline / NURBS de
 Property theorems only; helper lemmas live in `Proofs/`.
 -/
 import NurbsVerif.Proofs.Eval
+import NurbsVerif.Proofs.Lookup
+import NurbsVerif.Proofs.Hull
+import NurbsVerif.Proofs.Matrix
 
 namespace NV
 
@@ -28,6 +31,68 @@ theorem C01_eval_eq_def (c : Curve) (pts : List Vec) (t : Table) (u : Rat)
   | some ws =>
     simp only [pure, Except.pure]
     rw [rationalise_eq_ratRow ws _ (hw ws hW)]
+
+/-- **C01 (value, unconditional form).**  For every well-formed knot vector whose distinct knot values are separated
+(the guaranteed domain), every control-point list, every weight list whose weight function does not vanish at `u`
+and every parameter `u ∈ [umin, umax]`, the evaluation equals the B-spline / NURBS definition.  The look-up side
+condition is discharged by `evalCheck_of_good` (span search terminates and finds the span, the distinct knot list is
+strictly increasing, `spans.index(span)` hits the right table). -/
+theorem C01_eval_eq_def_WF (c : Curve) (pts : List Vec) (u : Rat)
+    (hP : c.P = some pts) (hwf : WF c.kv.v c.kv.deg) (hsep : Separated c.kv.v)
+    (hu : c.kv.umin ≤ u ∧ u ≤ c.kv.umax)
+    (hw : ∀ ws, c.W = some ws → dot (cdbRow c.kv.v c.kv.umax c.kv.npts c.kv.deg u) ws ≠ 0) :
+    c.eval u = .ok (curveDef c.kv.v c.kv.umax c.kv.npts c.kv.deg pts c.W u) := by
+  have g : GoodKV c.kv := goodKV_of_WF c.kv.v c.kv.deg hwf hsep
+  have hchk : orderedCheck c.kv = true := orderedCheck_of_WF c.kv.v c.kv.deg hwf
+  obtain ⟨t, ht, hc⟩ := evalCheck_of_good c.kv g hchk c.kv.deg (le_refl _) u hu
+  exact C01_eval_eq_def c pts t u hP ht hc hw
+
+/-- positive weights never make the weight function vanish (non-negativity + partition of unity) -/
+theorem weight_function_pos (k : KV) (g : GoodKV k) (u : Rat) (hu : k.umin ≤ u ∧ u ≤ k.umax) (ws : List Rat)
+    (hlen : ws.length = k.npts) (hpos : ∀ w ∈ ws, 0 < w) :
+    0 < dot (cdbRow k.v k.umax k.npts k.deg u) ws := by
+  obtain ⟨s, hs⟩ := span_total k g.ord g.deg_lt u hu
+  have hlen' := g.ord.len
+  have hslt := span_lt_npts k g.ord u s hs (by have := g.deg_lt; omega)
+  have hsge := span_ge_deg k g.deg_lt u s hs
+  have hIn : InSpan (nth k.v) k.umax s u := by
+    rcases span_spec k u s hs with hsp | ⟨hmax, hsn⟩
+    · exact Or.inl hsp
+    · have e : k.npts - 1 + 1 = k.npts := by have := g.deg_lt; omega
+      refine Or.inr ⟨hmax, ?_, ?_⟩
+      · rw [hsn, e]; exact g.last
+      · rw [hsn, e]; rfl
+  have hrow : (cdbRow k.v k.umax k.npts k.deg u).length = k.npts := by simp [cdbRow]
+  rw [dot_eq_sum _ _ k.npts hrow hlen]
+  have hentry : ∀ i ∈ Finset.range k.npts,
+      (cdbRow k.v k.umax k.npts k.deg u).getD i 0 * ws.getD i 0 = cdb k.v k.umax i k.deg u * ws.getD i 0 := by
+    intro i hi
+    simp only [Finset.mem_range] at hi
+    simp [cdbRow, List.getD_eq_getElem?_getD, hi]
+  rw [Finset.sum_congr rfl hentry]
+  apply convex_combination_gt k.npts (fun i => cdb k.v k.umax i k.deg u) (fun i => ws.getD i 0) 0
+  · intro i hi
+    rw [cdb_eq_cdbF]
+    exact cdbF_nonneg (nth k.v) k.umax (k.v.length - 1) g.ord.mono g.ord.le_umax s u (by omega) hIn k.deg i (by omega)
+  · simp only [cdb_eq_cdbF]
+    exact cdbF_sum_one (nth k.v) k.umax (k.v.length - 1) g.ord.mono g.ord.le_umax s u hIn k.deg k.npts hsge hslt (by omega)
+  · intro i hi
+    have : i < ws.length := by omega
+    have hm : ws.getD i 0 = ws[i] := by simp [List.getD_eq_getElem?_getD, this]
+    rw [hm]
+    exact hpos _ (List.getElem_mem this)
+
+/-- **C01 (positive weights).**  With positive weights (and for polynomial curves) no side condition is left:
+evaluation = definition at every parameter of the interval. -/
+theorem C01_eval_eq_def_positive (c : Curve) (pts : List Vec) (u : Rat)
+    (hP : c.P = some pts) (hwf : WF c.kv.v c.kv.deg) (hsep : Separated c.kv.v)
+    (hu : c.kv.umin ≤ u ∧ u ≤ c.kv.umax)
+    (hw : ∀ ws, c.W = some ws → ws.length = c.kv.npts ∧ ∀ w ∈ ws, 0 < w) :
+    c.eval u = .ok (curveDef c.kv.v c.kv.umax c.kv.npts c.kv.deg pts c.W u) := by
+  apply C01_eval_eq_def_WF c pts u hP hwf hsep hu
+  intro ws hws
+  obtain ⟨hl, hp⟩ := hw ws hws
+  exact ne_of_gt (weight_function_pos c.kv (goodKV_of_WF c.kv.v c.kv.deg hwf hsep) u hu ws hl hp)
 
 /-- **C01 (outside).**  A parameter outside `[umin, umax]` gives `ValueError`, never a value. -/
 theorem C01_eval_outside (c : Curve) (pts : List Vec) (t : Table) (u : Rat)
